@@ -203,7 +203,7 @@ def gen_tree(rng, prof=None, depth=0, idgen=None, top=True, maxdepth=None):
             job['forever'] = rng.random() < p.get('p_forever', 0.15)
             job['outcome'] = 'raise' if rng.random() < p.get('p_raise', 0.25) else 'return'
             if job['outcome'] == 'raise' and rng.random() < 0.4:
-                job['exc'] = rng.choice(['timeout', 'key', 'custom'])
+                job['exc'] = rng.choice(['timeout', 'key', 'custom', 'base', 'empty', 'multiline'])
             if job['outcome'] == 'return' and rng.random() < 0.2:
                 job['retval'] = rng.choice(['none', 'false', 'zero', 'empty'])
             job['cdur'] = rng.choice(p.get('cdurs', [0, 0, 0, 1, 2]))
@@ -211,12 +211,23 @@ def gen_tree(rng, prof=None, depth=0, idgen=None, top=True, maxdepth=None):
             job['sdur'] = rng.choice(p.get('sdurs', [0, 0, 0, 1, 3]))
             job['syields'] = rng.choice([0, 0, 1])
             job['coro'] = rng.random() < 0.3
+            if rng.random() < p.get('p_printjob', 0.06) and job['outcome'] == 'return':
+                # the library's own PrintJob: it cannot fail, honours cancellation at once
+                job.update(print=rng.choice(['none', 'int', 'str']), coro=False, pre=0, post=0,
+                           cdur=0, cyields=0, sdur=0, syields=0)
+                job.pop('retval', None)
             if job['forever'] and rng.random() < p.get('p_never', 0.6):
                 job['dur'] = None
                 if rng.random() < 0.5:
                     job['ticker'] = rng.choice([1, 2])
             if rng.random() < p.get('p_sd_never', 0.04):
                 job['sdur'] = None
+            if job.get('print'):
+                # a PrintJob always ends by itself and has a trivial co_shutdown()
+                if job['dur'] is None:
+                    job['dur'] = 2
+                job.pop('ticker', None)
+                job['sdur'] = 0
         jobs.append(job)
     hashes = list(range(len(jobs)))
     rng.shuffle(hashes)
@@ -248,7 +259,7 @@ def make_admissible(rng, spec, free=False, bounded_sd=False):
         # "a scheduler with a timeout terminates whatever its jobs do":
         # occasionally a never-ending non-forever job
         for j in jobs:
-            if not is_sched(j) and rng.random() < 0.08:
+            if not is_sched(j) and not j.get('print') and rng.random() < 0.08:
                 j['dur'] = None
     elif jobs:
         if all(j.get('forever') for j in jobs):
